@@ -484,3 +484,35 @@ Proof.
   unfold render. apply List.map_ext. intro x. f_equal. unfold print_linked.
   apply reorder_prints_the_same; [apply Hr|intro l; apply Permutation_refl|apply to_print_ok; exact Ha].
 Qed.
+
+(* PER-SITE Range orders: [reorder] applies one function to every option list; a real run draws a fresh order at every
+   Range call.  Relationally: ANY two descriptors obtained from the printer's descriptor by permuting each option list
+   independently (BR.dfile_equiv to it) print the same tokens. *)
+Lemma opts_equiv_sym_trans o o1 o2 : BR.opts_equiv o o1 -> BR.opts_equiv o o2 -> BR.opts_equiv o1 o2.
+Proof.
+  intros [P1 D1] [P2 D2]. split; [eapply perm_trans; [apply Permutation_sym; exact P1|exact P2]|].
+  intros a c Ha Hc. apply D1; apply (Permutation_in _ (Permutation_sym P1)); assumption.
+Qed.
+Theorem any_range_variants_print_the_same ann l d1 d2 :
+  BR.dfile_equiv (to_print ann l) d1 -> BR.dfile_equiv (to_print ann l) d2 ->
+  PF.print_file_tokens (st_of ann l) d1 = PF.print_file_tokens (st_of ann l) d2.
+Proof.
+  intros H1 H2. rewrite <- (BR.print_file_tokens_range_order_free (st_of ann l) _ _ H1).
+  apply BR.print_file_tokens_range_order_free. exact H2.
+Qed.
+(* [reorder rng] of the printer's descriptor is such a variant *)
+Lemma reorder_is_variant ann l rng : ann_ok ann -> perm_fun rng -> BR.dfile_equiv (to_print ann l) (reorder rng (to_print ann l)).
+Proof.
+  intros Ha Hp.
+  assert (E : reorder (fun o => o) (to_print ann l) = to_print ann l).
+  { unfold reorder. destruct (to_print ann l) as [pk im fo ex bo]. cbn [PF.d_pkg PF.d_imports PF.d_fopts PF.d_exts PF.d_body]. f_equal.
+    - induction ex as [|[q f] r IH]; cbn [map fst snd]; [reflexivity|]. rewrite IH. destruct f; reflexivity.
+    - induction bo as [|x r IH]; cbn [map]; [reflexivity|]. rewrite IH. f_equal.
+      induction x as [f|k c n o fs|k c n o body IHb|k c n o vs|k c n o ms] using BR.delem_forall_ind.
+      + destruct f; reflexivity.
+      + cbn [reorder_elem]. f_equal. induction fs as [|f fr IHf]; cbn [map]; [reflexivity|]. rewrite IHf. destruct f; reflexivity.
+      + rewrite reorder_msg. f_equal. induction IHb as [|y s Hy _ IHs]; cbn [map]; [reflexivity|]. rewrite Hy, IHs. reflexivity.
+      + cbn [reorder_elem]. f_equal. induction vs as [|v vr IHv]; cbn [map]; [reflexivity|]. rewrite IHv. destruct v; reflexivity.
+      + cbn [reorder_elem]. f_equal. induction ms as [|m mr IHm]; cbn [map]; [reflexivity|]. rewrite IHm. destruct m; reflexivity. }
+  rewrite <- E at 1. apply reorder_equiv; [intro o; apply Permutation_refl|exact Hp|apply to_print_ok; exact Ha].
+Qed.
